@@ -93,3 +93,30 @@ Proof.
     { apply filter_In. split; auto. apply sig_match_own; auto. }
     rewrite H in T2. destruct T2 as [T2|[]]. auto.
 Qed.
+
+(* ---- the selection on a file: line-faithful parsing ---- *)
+Lemma shift_lam_0 : forall l, shift_lam 0 l = l.
+Proof. intros [i a b s]. unfold shift_lam. simpl. rewrite !Nat.sub_0_r. reflexivity. Qed.
+
+Lemma shift_nodes_0 : forall nodes, map (shift_node 0) nodes = nodes.
+Proof.
+  induction nodes as [|[ln ls] r IH]; simpl; auto. rewrite IH. unfold shift_node. simpl. rewrite Nat.sub_0_r.
+  f_equal. f_equal. clear. induction ls as [|l ls IH]; simpl; auto. rewrite shift_lam_0, IH. reflexivity.
+Qed.
+
+Lemma line_shift_ok : forall n lead, norm_ok n = true -> line_shift n lead = 0.
+Proof. intros [| | |] lead H; simpl in *; try discriminate; reflexivity. Qed.
+
+Lemma select_in_file_faithful : forall R ops comps norm lead nodes d spec,
+  norm_ok norm = true -> select_in_file R ops comps norm lead nodes d spec = select R ops comps nodes d spec.
+Proof. intros. unfold select_in_file. rewrite line_shift_ok by assumption. rewrite shift_nodes_0. reflexivity. Qed.
+
+Theorem never_substituted_in_file : forall R ops comps norm lead nodes d ln ls t c,
+  rules_ok R = true -> span_ok ops = true -> norm_ok norm = true -> sorted nodes = true ->
+  In (ln, ls) nodes -> In t ls -> ln <= d -> l_min t <= d <= l_max t ->
+  comps_complete comps = true \/ s_posonly (l_sig t) = [] ->
+  select_in_file R ops comps norm lead nodes d (spec_of (l_sig t)) = Found c -> c = t.
+Proof.
+  intros R ops comps norm lead nodes d ln ls t c OK SO NO SN IN IT LN SP CC H.
+  rewrite select_in_file_faithful in H by assumption. eapply never_substituted; eauto.
+Qed.
